@@ -108,6 +108,7 @@ func checkC16(c *Ctx, e *Env) {
 	ruleC16Mgr(c, m)
 	ruleC16Every(c, m)
 	ruleC16Stateless(c, m)
+	importObligations(c, e, checkC15, "C15", "C16.IRI", "data ids#one-per-content-hash", "anchors, attestations and registrations are kept per data id, and the data id is looked up by IRI: two different content hashes keep separate permanent records only if the encoders give them different IRIs", func(o *Oblig) bool { return o.Rule == "C15.CODEC" || o.Rule == "C15.NARROW" })
 }
 
 // ruleC16Every: every content hash named in a successful Attest / RegisterResolver message is dealt
@@ -126,12 +127,26 @@ func ruleC16Every(c *Ctx, m *Model) {
 		}
 		bad := ""
 		n := 0
+		// a loop none of whose iterations touches state (validation, IRI computation, a pass that only
+		// builds a list ahead of the real loop) is not where the records are made; a loop that does touch
+		// state must deal with every element — also on the iterations that skip early
+		stateful := map[string]bool{}
 		for _, o := range h.Outs {
 			if o.Kind != exitLoopback || strings.Count(o.Loop, "/") != 1 {
-				continue // only iterations of the handler's own (outermost) loop
+				continue
 			}
-			n++
+			for i := range o.St.events {
+				if ev := &o.St.events[i]; (ev.Kind == "write" || ev.Kind == "read") && inScope(o, ev) {
+					stateful[o.Loop] = true
+				}
+			}
+		}
+		for _, o := range h.Outs {
+			if o.Kind != exitLoopback || strings.Count(o.Loop, "/") != 1 || !stateful[o.Loop] {
+				continue // only iterations of the handler's own (outermost) loops that touch state
+			}
 			st := o.St
+			n++
 			done := false
 			for i := range st.events {
 				ev := &st.events[i]
